@@ -28,6 +28,7 @@ type SpecCtx struct {
 	pkg    *types.Package
 	tparms map[string]types.Type // type parameter names in scope
 	nbound *int
+	noRebase bool
 }
 
 type specErr struct{ msg string }
@@ -592,6 +593,9 @@ func (c *SpecCtx) importedPkg(name string) *types.Package {
 
 func (c *SpecCtx) sliceElem(sl *SliceV, elemT types.Type, idx *Term) *Val {
 	abs := c.ex.iadd(sl.Off, idx)
+	if sl.Inner != nil {
+		return c.ex.buildVal(elemT, "", func(l Leaf) *Term { return Select(sl.Inner[l.Path], abs) })
+	}
 	loc := &Loc{Kind: LElem, Arr: sl.Arr, Idx: abs, Base: c.ex.env.resolve(elemT), Type: elemT}
 	return c.ex.loadLoc(c.st, loc)
 }
@@ -602,6 +606,15 @@ func (c *SpecCtx) evalIndex(x *ast.IndexExpr) *SV {
 		c.fail("index of untyped value")
 	}
 	bt := c.ex.env.resolve(base.T)
+	if el, ok := isSeqType(bt); ok {
+		i := c.term(c.eval(x.Index), c.ex.env.IntS())
+		return &SV{V: scalar(Select(base.V.T, i)), T: el}
+	}
+	if b, ok := bt.Underlying().(*types.Basic); ok && b.Info()&types.IsString != 0 {
+		i := c.term(c.eval(x.Index), c.ex.env.IntS())
+		f := c.ex.env.d.Func("str_at", SBV8, c.ex.strSort(), c.ex.env.IntS())
+		return &SV{V: scalar(c.ex.env.d.Apply(f.Name, base.V.T, i)), T: types.Typ[types.Uint8]}
+	}
 	switch tt := bt.Underlying().(type) {
 	case *types.Slice:
 		i := c.term(c.eval(x.Index), c.ex.env.IntS())
@@ -692,6 +705,11 @@ func (c *SpecCtx) resolveType(e ast.Expr) types.Type {
 		}
 	case *ast.ParenExpr:
 		return c.resolveType(x.X)
+	case *ast.IndexExpr:
+		if id, ok := x.X.(*ast.Ident); ok && id.Name == "seq" {
+			el := c.resolveType(x.Index)
+			return seqType(el, c.ex.env.typeKey(el))
+		}
 	}
 	c.fail("cannot resolve type %s", exprString(e))
 	return nil
@@ -855,6 +873,13 @@ func (c *SpecCtx) evalCall(x *ast.CallExpr) *SV {
 	case "arr":
 		a := c.eval(x.Args[0])
 		return &SV{V: scalar(a.V.Sl.Arr), T: types.Typ[types.UnsafePointer]}
+	case "strdata":
+		a := c.eval(x.Args[0])
+		return &SV{V: scalar(ex.strData(a.V.T)), T: types.Typ[types.UnsafePointer]}
+	case "writable":
+		a := c.eval(x.Args[0])
+		ex.strData(nil)
+		return boolSV(Not(App("is_strdata", SBool, a.V.Sl.Arr)))
 	case "disjoint":
 		a, b := c.eval(x.Args[0]), c.eval(x.Args[1])
 		sa, sb := a.V.Sl, b.V.Sl
@@ -970,7 +995,7 @@ func (c *SpecCtx) evalQuant(kind string, x *ast.CallExpr) *SV {
 	}
 	mk := func(bound *Term, body *Term) *SV {
 		if kind == "forall" {
-			return boolSV(Forall([]*Term{bound}, body))
+			return boolSV(Forall([]*Term{bound}, body, selectPatterns(body, bound)...))
 		}
 		return boolSV(Exists([]*Term{bound}, body))
 	}
@@ -983,6 +1008,32 @@ func (c *SpecCtx) evalQuant(kind string, x *ast.CallExpr) *SV {
 		inner := c.with(map[string]*SV{id.Name: {V: scalar(bv), T: c.intType()}})
 		body := inner.EvalBool(x.Args[3])
 		rng := And(ex.sle(lo, bv), ex.slt(bv, hi))
+		// re-base the quantifier on an absolute storage index when the bound
+		// variable is used as  select(A, OFF + i): triggers without arithmetic
+		if off := shiftCandidate(body, bv); off != nil && !c.noRebase && !is.IsBV() {
+			// keep the original form as well when it has a trigger of its own (f(.., i, ..))
+			var orig *SV
+			if hasUFPattern(body, bv, ex.env.d) {
+				if kind == "forall" {
+					orig = boolSV(Forall([]*Term{bv}, Implies(rng, body), ufPatterns(body, bv, ex.env.d)...))
+				}
+			}
+			kv := c.newBound(id.Name+"_abs", is)
+			var repl *Term
+			if is.IsBV() {
+				repl = App("bvsub", is, kv, off)
+			} else {
+				repl = Sub(kv, off)
+			}
+			m := map[string]*Term{bv.Op: repl}
+			body = simplifyShift(body.Subst(m))
+			rng = simplifyShift(rng.Subst(m))
+			bv = kv
+			if orig != nil {
+				reb := mk(bv, Implies(rng, body))
+				return boolSV(And(orig.V.T, reb.V.T))
+			}
+		}
 		if kind == "forall" {
 			return mk(bv, Implies(rng, body))
 		}
@@ -994,7 +1045,10 @@ func (c *SpecCtx) evalQuant(kind string, x *ast.CallExpr) *SV {
 		inner := c.with(map[string]*SV{id.Name: {V: scalar(bv), T: t}})
 		body := inner.EvalBool(x.Args[2])
 		// typed quantification ranges over well-typed values
-		ti := ex.typeInv(t, scalar(bv), nil)
+		ti := TTrue
+		if _, _, isInt := intInfo(ex.env.resolve(t)); !isInt {
+			ti = ex.typeInv(t, scalar(bv), nil)
+		}
 		if kind == "forall" {
 			return mk(bv, Implies(ti, body))
 		}
@@ -1045,6 +1099,9 @@ func (c *SpecCtx) applySpecFunc(sf *SpecFunc, recv *SV, args []ast.Expr) *SV {
 	}
 	if sf.BVOnly && ex.env.mode != ModeBV || ex.spec != nil && ex.spec.Opaque[sf.Name] {
 		return c.applyOpaque(sf, defCtx, names, recv)
+	}
+	if sf.Trig {
+		return c.applyTrig(sf, defCtx, names, recv)
 	}
 	if sf.Rec {
 		return c.applyRec(sf, defCtx, names, recv)
@@ -1118,4 +1175,270 @@ func (c *SpecCtx) applyOpaque(sf *SpecFunc, defCtx *SpecCtx, names map[string]*S
 func (c *SpecCtx) applyRec(sf *SpecFunc, defCtx *SpecCtx, names map[string]*SV, recv *SV) *SV {
 	c.fail("recursive spec functions are not supported yet (%s)", sf.Name)
 	return nil
+}
+
+// selectPatterns proposes triggers for a quantified body: every term
+// (select A i) whose index is exactly the bound variable and whose array
+// does not mention it.
+func selectPatterns(body *Term, bound *Term) [][]*Term {
+	seen := map[string]bool{}
+	var pats [][]*Term
+	var mentions func(t *Term) bool
+	mentions = func(t *Term) bool {
+		if t.IntVal != nil {
+			return false
+		}
+		if len(t.Args) == 0 {
+			return t.Op == bound.Op
+		}
+		for _, a := range t.Args {
+			if mentions(a) {
+				return true
+			}
+		}
+		return false
+	}
+	var walk func(t *Term)
+	walk = func(t *Term) {
+		if t.Op == "forall" || t.Op == "exists" {
+			// do not take triggers from nested quantifiers
+			return
+		}
+		if t.Op == "select" && len(t.Args) == 2 && len(t.Args[1].Args) == 0 && t.Args[1].Op == bound.Op && !mentions(t.Args[0]) {
+			k := t.String()
+			if !seen[k] {
+				seen[k] = true
+				pats = append(pats, []*Term{t})
+			}
+		}
+		for _, a := range t.Args {
+			walk(a)
+		}
+	}
+	walk(body)
+	if len(pats) > 4 {
+		return nil
+	}
+	return pats
+}
+
+// applyTrig applies a spec function as an uninterpreted function of its
+// arguments and adds (once) its definition as an axiom triggered on the
+// application.  The body may depend on its parameters only (slices through
+// their contents, offset and length), not on the rest of the heap.
+func (c *SpecCtx) applyTrig(sf *SpecFunc, defCtx *SpecCtx, names map[string]*SV, recv *SV) *SV {
+	ex := c.ex
+	var args []*Term
+	var bound []*Term
+	bnames := map[string]*SV{}
+	order := append([]string{}, sf.Params...)
+	if recv != nil {
+		rn := sf.RecvName
+		if rn == "" {
+			rn = "self"
+		}
+		order = append([]string{rn}, order...)
+	}
+	nb := 0
+	newB := func(s Sort) *Term {
+		nb++
+		return Sym(fmt.Sprintf("%s!p%d", sanitizeName(sf.Name), nb), s)
+	}
+	for _, n := range order {
+		v := names[n]
+		if v.Const != nil {
+			c.fail("constant argument to triggered spec function %s needs a typed parameter", sf.Name)
+		}
+		if v.V.Sl != nil {
+			et := ex.env.resolve(v.T).Underlying().(*types.Slice).Elem()
+			inner := map[string]*Term{}
+			for _, l := range ex.env.leaves(et) {
+				var a *Term
+				if v.V.Sl.Inner != nil {
+					a = v.V.Sl.Inner[l.Path]
+				} else {
+					a = Select(ex.elemArr(c.st, et, l.Path, l.Sort), v.V.Sl.Arr)
+				}
+				args = append(args, a)
+				b := newB(a.Sort)
+				bound = append(bound, b)
+				inner[l.Path] = b
+			}
+			args = append(args, v.V.Sl.Off, v.V.Sl.Len)
+			bo, bl := newB(v.V.Sl.Off.Sort), newB(v.V.Sl.Len.Sort)
+			bound = append(bound, bo, bl)
+			bnames[n] = &SV{V: &Val{Sl: &SliceV{Arr: IntLit(0), Off: bo, Len: bl, Cap: bl, Inner: inner}}, T: v.T}
+			continue
+		}
+		var bs []*Term
+		ex.flatten(v.T, v.V, "", func(l Leaf, t *Term) {
+			args = append(args, t)
+			b := newB(t.Sort)
+			bound = append(bound, b)
+			bs = append(bs, b)
+		})
+		k := 0
+		bnames[n] = &SV{V: ex.buildVal(v.T, "", func(l Leaf) *Term { k++; return bs[k-1] }), T: v.T}
+	}
+	var ret Sort = SBool
+	var rt types.Type = types.Typ[types.Bool]
+	if sf.RetTy != nil {
+		rt = defCtx.resolveType(sf.RetTy)
+		ret = ex.env.scalarSort(rt)
+	}
+	var sorts []Sort
+	for _, a := range args {
+		sorts = append(sorts, a.Sort)
+	}
+	name := "sf_" + sanitizeName(sf.Name)
+	for _, s := range sorts {
+		name += "_" + sanitizeName(string(s))
+	}
+	ex.env.d.Func(name, ret, sorts...)
+	if !ex.recDefs[name] {
+		ex.recDefs[name] = true
+		ex.specDepth++
+		inner := defCtx.with(bnames)
+		body := inner.eval(sf.Body)
+		ex.specDepth--
+		app := App(name, ret, bound...)
+		bt := inner.term(body, ret)
+		ex.addAxiom(Forall(bound, Eq(app, bt), []*Term{app}))
+	}
+	return &SV{V: scalar(ex.env.d.Apply(name, args...)), T: rt}
+}
+
+// shiftCandidate finds the first OFF such that (select A (+ OFF i)) occurs in
+// body with i the bound variable and OFF free of it.
+func shiftCandidate(body *Term, bound *Term) *Term {
+	var found *Term
+	var mentions func(t *Term) bool
+	mentions = func(t *Term) bool {
+		if t.IntVal != nil {
+			return false
+		}
+		if len(t.Args) == 0 {
+			return t.Op == bound.Op
+		}
+		for _, a := range t.Args {
+			if mentions(a) {
+				return true
+			}
+		}
+		return false
+	}
+	var walk func(t *Term)
+	walk = func(t *Term) {
+		if found != nil || t.IntVal != nil {
+			return
+		}
+		if t.Op == "select" && len(t.Args) == 2 {
+			ix := t.Args[1]
+			if (ix.Op == "+" || ix.Op == "bvadd") && len(ix.Args) == 2 && len(ix.Args[1].Args) == 0 && ix.Args[1].Op == bound.Op && ix.Args[1].IntVal == nil && !mentions(ix.Args[0]) && !mentions(t.Args[0]) {
+				found = ix.Args[0]
+				return
+			}
+		}
+		if t.Op == "forall" || t.Op == "exists" {
+			return
+		}
+		for _, a := range t.Args {
+			walk(a)
+		}
+	}
+	walk(body)
+	return found
+}
+
+// simplifyShift rewrites (+ A (- K A)) to K (and the bit-vector analogue).
+func simplifyShift(t *Term) *Term {
+	if t.IntVal != nil || len(t.Args) == 0 {
+		return t
+	}
+	if t.Op == "forall" || t.Op == "exists" {
+		nb := simplifyShift(t.Args[0])
+		var np [][]*Term
+		for _, p := range t.Pats {
+			var q []*Term
+			for _, pt := range p {
+				q = append(q, simplifyShift(pt))
+			}
+			np = append(np, q)
+		}
+		return &Term{Op: t.Op, Sort: t.Sort, Args: []*Term{nb}, Bound: t.Bound, Pats: np}
+	}
+	na := make([]*Term, len(t.Args))
+	changed := false
+	for i, a := range t.Args {
+		na[i] = simplifyShift(a)
+		if na[i] != a {
+			changed = true
+		}
+	}
+	if (t.Op == "+" || t.Op == "bvadd") && len(na) == 2 {
+		sub := "-"
+		if t.Op == "bvadd" {
+			sub = "bvsub"
+		}
+		if na[1].Op == sub && len(na[1].Args) == 2 && na[1].Args[1].String() == na[0].String() {
+			return na[1].Args[0]
+		}
+		if na[0].Op == sub && len(na[0].Args) == 2 && na[0].Args[1].String() == na[1].String() {
+			return na[0].Args[0]
+		}
+	}
+	if !changed {
+		return t
+	}
+	return &Term{Op: t.Op, Sort: t.Sort, Args: na}
+}
+
+func ufPatterns(body *Term, bound *Term, d *Decls) [][]*Term {
+	seen := map[string]bool{}
+	var pats [][]*Term
+	var mentions func(t *Term) bool
+	mentions = func(t *Term) bool {
+		if t.IntVal != nil {
+			return false
+		}
+		if len(t.Args) == 0 {
+			return t.Op == bound.Op
+		}
+		for _, a := range t.Args {
+			if mentions(a) {
+				return true
+			}
+		}
+		return false
+	}
+	var walk func(t *Term)
+	walk = func(t *Term) {
+		if t.IntVal != nil || t.Op == "forall" || t.Op == "exists" {
+			return
+		}
+		if f, ok := d.Funcs[t.Op]; ok && len(f.Args) > 0 && len(t.Args) > 0 {
+			direct := false
+			okp := true
+			for _, a := range t.Args {
+				if len(a.Args) == 0 && a.IntVal == nil && a.Op == bound.Op {
+					direct = true
+				} else if mentions(a) {
+					okp = false
+				}
+			}
+			if direct && okp && !seen[t.String()] {
+				seen[t.String()] = true
+				pats = append(pats, []*Term{t})
+			}
+		}
+		for _, a := range t.Args {
+			walk(a)
+		}
+	}
+	walk(body)
+	return pats
+}
+
+func hasUFPattern(body *Term, bound *Term, d *Decls) bool {
+	return len(ufPatterns(body, bound, d)) > 0
 }
